@@ -1064,21 +1064,33 @@ func (vx *Vaxis) handleSequence(seq ansi.Sequence) {
 			// content. In this case, we don't want to fill the channel buffer
 			// as no one will clear it.
 			if vx.CanReportColor() {
-				vx.chColor <- string(seq.Payload)
+				select {
+				case vx.chColor <- string(seq.Payload):
+				default:
+					// nobody is waiting for it
+				}
 			}
 			vx.PostEventBlocking(capabilityOsc4{})
 		}
 		if strings.HasPrefix(string(seq.Payload), "10") {
 			// Similar to OSC 4
 			if vx.CanReportForegroundColor() {
-				vx.chFg <- string(seq.Payload)
+				select {
+				case vx.chFg <- string(seq.Payload):
+				default:
+					// nobody is waiting for it
+				}
 			}
 			vx.PostEventBlocking(capabilityOsc10{})
 		}
 		if strings.HasPrefix(string(seq.Payload), "11") {
 			// Similar to OSC 4
 			if vx.CanReportBackgroundColor() {
-				vx.chBg <- string(seq.Payload)
+				select {
+				case vx.chBg <- string(seq.Payload):
+				default:
+					// nobody is waiting for it
+				}
 			}
 			vx.PostEventBlocking(capabilityOsc11{})
 		}
@@ -1127,6 +1139,11 @@ func (vx *Vaxis) QueryColor(c Color) Color {
 	if len(p) != 1 {
 		return Color(0)
 	}
+	select {
+	case <-vx.chColor:
+		// a stale, unsolicited report
+	default:
+	}
 	vx.tw.WriteStringLocked(tparm(osc4, p[0]))
 	resp := <-vx.chColor
 	var r, g, b int
@@ -1151,6 +1168,11 @@ func (vx *Vaxis) QueryForeground() Color {
 	if !vx.CanReportForegroundColor() {
 		return Color(0)
 	}
+	select {
+	case <-vx.chFg:
+		// a stale, unsolicited report
+	default:
+	}
 	vx.tw.WriteStringLocked(osc10)
 	resp := <-vx.chFg
 	var r, g, b int
@@ -1170,6 +1192,11 @@ func (vx *Vaxis) QueryForeground() Color {
 func (vx *Vaxis) QueryBackground() Color {
 	if !vx.CanReportBackgroundColor() {
 		return Color(0)
+	}
+	select {
+	case <-vx.chBg:
+		// a stale, unsolicited report
+	default:
 	}
 	vx.tw.WriteStringLocked(osc11)
 	resp := <-vx.chBg
